@@ -229,6 +229,30 @@ def int_tdiv(x, y):
 
 
 DIVIDES = z3.Function('divides', z3.IntSort(), z3.IntSort(), z3.BoolSort())    # divides(b, a): b != 0 and b | a
+def int_bitop(op, a, b, w, sg):
+    """& | ^ on machine integers in integer mode (w <= 64): bit decomposition of the two's-complement patterns.
+    Exact; only div/mod by constants are introduced."""
+    if w > 64:
+        raise Unsupported(f'int-mode bit op {op} at width {w}')
+    m = 1 << w
+    ua = a % m if sg else a
+    ub = b % m if sg else b
+    total = z3.IntVal(0)
+    for i in range(w):
+        ba = (ua / (1 << i)) % 2
+        bb = (ub / (1 << i)) % 2
+        if op == 'BitAnd':
+            bit = z3.If(z3.And(ba == 1, bb == 1), 1, 0)
+        elif op == 'BitOr':
+            bit = z3.If(z3.Or(ba == 1, bb == 1), 1, 0)
+        else:
+            bit = z3.If(ba != bb, 1, 0)
+        total = total + bit * (1 << i)
+    if sg:
+        return z3.If(total >= (m >> 1), total - m, total)
+    return total
+
+
 POW2 = z3.Function('pow2', z3.IntSort(), z3.IntSort())
 POW2_AXIOMS = [POW2(z3.IntVal(k)) == z3.IntVal(1 << k) for k in range(0, 65)]
 
@@ -801,8 +825,7 @@ class Exec:
             if op in ('Shr', 'ShrUnchecked'):
                 return floor_shr(a, POW2(b))
             if op in ('BitAnd', 'BitOr', 'BitXor'):
-                # only on small non-negative constants masks; otherwise unsupported in integer mode
-                raise Unsupported(f'int-mode bit op {op}')
+                return int_bitop(op, a, b, w, sg)
             if op == 'Eq':
                 return a == b
             if op == 'Ne':
